@@ -32,6 +32,7 @@ H(x) == hist' = IF GenOn THEN Append(hist, x) ELSE hist
 HRec == hist' = IF GenOn /\ (Len(hist) = 0 \/ hist[Len(hist)].a # "reconcile") THEN Append(hist, [a |-> "reconcile"]) ELSE hist
 PlanOf(eff) == [a |-> "plan", outcomes |-> <<IF eff THEN "ok" ELSE "fb">>]
 Fams == IF MCV6 THEN {4, 6} ELSE {4}
+MCLocal == { u \in Uids : up[u] }                          \* the abstract agent keeps a record per sandbox that is up
 
 (* ------------------------------------------------------------------ environment and node agent *)
 EnvStep ==
@@ -54,13 +55,13 @@ EnvStep ==
   \/ \E u \in Uids : /\ up[u]
                      /\ CniDel(given[u].p, u) /\ pend' = pend \cup {u} /\ H([a |-> "cni_del", p |-> given[u].p]) /\ UNCHANGED pc
   \/ /\ pend # {}                                                                         \* report timer: the write
-     /\ RtWrite("daemon", [u \in Uids |-> IF u \in pend THEN [rt[u] EXCEPT !.del = 2] ELSE rt[u]], [u \in Uids |-> 0])
+     /\ RtWrite("daemon", [u \in Uids |-> IF u \in pend THEN [rt[u] EXCEPT !.del = 2] ELSE rt[u]], [u \in Uids |-> 0], MCLocal)
      /\ pend' = {} /\ pc' = [k |-> "flushed"] /\ UNCHANGED hist
   \/ /\ pend = {} /\ Flush(TRUE) /\ H([a |-> "flush", fail |-> FALSE]) /\ UNCHANGED <<pend, pc>>
   \/ /\ pend # {} /\ Flush(FALSE) /\ H([a |-> "flush", fail |-> TRUE]) /\ UNCHANGED <<pend, pc>>
   \/ /\ RtWrite("daemon", [u \in Uids |->                                                   \* the five-minute job: forget / sync back
                   IF Final(u) = "deleted" /\ ~\E x \in crI : x.u = u THEN NoRt
-                  ELSE IF rt[u] = NoRt /\ \E x \in crI : x.u = u THEN [ini |-> 1, del |-> 0] ELSE rt[u]], [u \in Uids |-> 0])
+                  ELSE IF rt[u] = NoRt /\ \E x \in crI : x.u = u THEN [ini |-> 1, del |-> 0] ELSE rt[u]], [u \in Uids |-> 0], MCLocal)
      /\ rt' # rt /\ H([a |-> "sync_deleted"]) /\ UNCHANGED <<pend, pc>>
   \/ \E u \in Uids : LET ps == { x.p : x \in { z \in crI : z.u = u } } IN                   \* agent gc: look-up, then mark
         /\ Final(u) = "initial" /\ ~up[u] /\ ps # {}
@@ -101,7 +102,7 @@ CtlStart ==
 CtlCont ==
   \/ /\ pc.k = "flushed" /\ Flush(TRUE) /\ pc' = Idle /\ H([a |-> "flush", fail |-> FALSE]) /\ UNCHANGED pend
   \/ /\ pc.k = "gc"
-     /\ \/ /\ RtWrite("daemon", [rt EXCEPT ![pc.u].del = 2], [u \in Uids |-> IF u = pc.u THEN pc.p ELSE 0]) /\ pc' = Idle
+     /\ \/ /\ RtWrite("daemon", [rt EXCEPT ![pc.u].del = 2], [u \in Uids |-> IF u = pc.u THEN pc.p ELSE 0], MCLocal) /\ pc' = Idle
         \/ /\ GcDone /\ pc' = Idle
      /\ UNCHANGED <<hist, pend>>
   \/ /\ pc.k = "un" /\ \E eff \in BOOLEAN :
